@@ -40,12 +40,15 @@ def step (s : St) (fs : List String) : St × String :=
       | some v => ({ s with unsafeRel := v }, "ok")
       | none => (s, "bad-op")
   | ["ns", p, sealable] => match parseHex? p, bool? sealable with
-      | some p, some sl => ({ s with nss := s.nss ++ [{ path := p, sealable := sl, sealed := sl }] }, "ok")
+      | some p, some sl =>
+        let (s', ok) := addNs s p sl
+        (s', if ok then "ok" else "err")
       | _, _ => (s, "bad-op")
   | ["sealns", p, v] => match parseHex? p, bool? v with
       | some p, some v =>
         if s.nss.any (fun n => n.path == p && n.sealable) then
-          ({ s with nss := s.nss.map fun n => if n.path == p then { n with sealed := v } else n }, "ok")
+          let (s', ok) := sealOp s p v
+          (s', if ok then "ok" else "err:sealed")
         else (s, "bad-op")
       | _, _ => (s, "bad-op")
   | ["mount", ns, p, id] => match parseHex? ns, parseHex? p, id.toNat? with
